@@ -140,7 +140,10 @@ class Check:
                 out_lines.append("KNOWN-FINDING: property=%s %s: %s (observed %d times in this run)" % (self.pid, f["id"], f["what"], n))
         replay_dir = os.path.join(VERIF, "replay", self.pid)
         shown = 0
-        for key, (summary, case) in self.violations.items():
+        items = list(self.violations.items())
+        if getattr(self, "sort_key", None):
+            items.sort(key=lambda kv: self.sort_key(kv[0]))
+        for key, (summary, case) in items:
             if shown >= int(os.environ.get('KV_REPLAY_CAP', '100')):
                 shown += 1
                 continue
